@@ -415,6 +415,20 @@ def r3_exceptions(repo, rep, cls, sites):
               # short-circuit inside the same test: `isinstance(bound, int) and int(value) != value`
               if not pf.every_case_has(lambda ex, t: t and isinstance(ex, ast.Call) and '_test_functions[' in norm(ex.func)):
                 guarded = False
+            # discharger: the value is an int or a float with is_integer() on every feasible path (inf and nan are not integers)
+            finite_int = bool(paths)
+            for p in paths:
+              pf = pathcond.PathFacts(p, rd, keep=tuple(params))
+              if not pf.feasible:
+                continue
+              def intlike(ex, t, tgt=target):
+                sx = norm(ex)
+                return t and (sx == 'isinstance(%s, int)' % tgt or sx == '%s.is_integer()' % tgt)
+              if not pf.every_case_has(intlike):
+                finite_int = False
+            if finite_int:
+              rep.ok('R3/only-ValueError', '%s: int(%s) is applied to an int or an integer-valued (hence finite) float' % (hname, target), loc=f.loc(call))
+              continue
             rep.check(not bad_sites and guarded, 'R3/only-ValueError', '%s: int(%s) only sees finitely bounded values' % (hname, target),
                       f.qualname, norm(call),
                       'int(%s) in %s can be reached with an unbounded value (call sites: %s): float("inf") raises OverflowError instead of ValueError'
